@@ -57,7 +57,7 @@ def gen_case(rng, tier):
                 case["dynstep"] = True
         return case
     mode = rng.choice(["static", "minimalloc", "minimalloc", "auto", "dynamic"])
-    ast = AG.AllocGen(rng, views=rng.random() < 0.7, two_mem=rng.random() < 0.2 and mode != "dynamic", odd_align=rng.random() < 0.3 and mode != "dynamic", dyn_allocs=rng.choice([0, 0, 0.4]) if mode == "auto" else 0).program(callee=rng.random() < 0.15)
+    ast = AG.AllocGen(rng, views=rng.random() < 0.7, two_mem=rng.random() < 0.2 and mode != "dynamic", odd_align=rng.random() < 0.3 and mode != "dynamic", dyn_allocs=rng.choice([0, 0, 0.4]) if mode == "auto" else 0, ptr_uses=rng.choice([0, 0, 0.15])).program(callee=rng.random() < 0.15)
     return {
         "fam": "place",
         "ast": ast,
